@@ -451,6 +451,7 @@ namespace hv
         cfg.tape        = tape;
         cfg.record_tape = emit_tape;
         cfg.instr_interval = instr;
+        if (instr > 0) cfg.max_steps = 20'000'000;     // every extra pre-emption point is a scheduler step
         cfg.instr_target_mod = instr_target;
         sim::configure(cfg);
         sim::set_log(false);
